@@ -392,18 +392,120 @@ def rand_id(rng):
     return rng.randrange(1 << 24)
 
 
+# ------------------------------------------------------------------------------------------------
+# reserved octets: the blocks the captured frames actually carry, single-octet perturbations of them, and
+# their crossing with the values of the other fields (special cases on "well-known" reserved blocks are
+# reached by construction: a uniformly random 7-octet block equals a captured one with probability 2^-56)
+# ------------------------------------------------------------------------------------------------
+RES_FIELDS = (("first", 2), ("r3", 3), ("r7", 7), ("r2a", 2), ("r2b", 2), ("r1", 1), ("pad", 1))
+RES_LEN = dict(RES_FIELDS)
+RES_DEFAULT = {"first": "5a5a", "r3": "000000", "r7": "00050101000000", "r2a": "4000", "r2b": "e208", "r1": "00", "pad": "00"}
+RES_CLASS_CONST = {"first": "DEFAULT_FIRST_HEADER", "r3": "DEFAULT_RESERVED_3", "r7": "DEFAULT_RESERVED_7A", "r2a": "DEFAULT_RESERVED_2A",
+                   "r2b": "DEFAULT_RESERVED_2B", "r1": "DEFAULT_RESERVED_1"}
+_RES = {}
+
+
+def res_dict():
+    """{'blocks': field -> distinct hex blocks (default first, then in order of capture), 'tuples': the coherent
+    combinations of all seven reserved fields of the captured frames}"""
+    if _RES:
+        return _RES
+    blocks = {k: [RES_DEFAULT[k]] for k, _ in RES_FIELDS}
+    tuples = []
+    for h in CAPTURED:
+        f = fields_of_captured(h)
+        t = {k: (f[k] if k != "pad" else "%02x" % f[k]) for k, _ in RES_FIELDS}
+        if t not in tuples:
+            tuples.append(t)
+        for k, v in t.items():
+            if v not in blocks[k]:
+                blocks[k].append(v)
+    # the constants of the class under test are generator input too (a changed default is one more block to try)
+    try:
+        _, H, _ = L()
+        for k, nm in RES_CLASS_CONST.items():
+            v = getattr(H, nm, None)
+            if isinstance(v, (bytes, bytearray)) and len(v) == RES_LEN[k] and bytes(v).hex() not in blocks[k]:
+                blocks[k].append(bytes(v).hex())
+    except BaseException:  # noqa
+        pass
+    _RES.update(blocks=blocks, tuples=tuples)
+    return _RES
+
+
+def set_res(f, k, hexval):
+    if k == "pad":
+        f["pad"] = int(hexval, 16)
+    else:
+        f[k] = hexval
+
+
+def get_res(f, k) -> str:
+    return "%02x" % f["pad"] if k == "pad" else f[k]
+
+
+def set_typed(f, g, v):
+    if g == "cc":
+        f["cc"] = v
+        f["ccword"] = bytes([v * 17] * 2).hex()
+    elif g in ("dst", "src"):
+        f[g] = v
+        f[g + "word"] = idword(v)
+    else:
+        f[g] = v
+
+
+def repick(rng, pool, f):
+    """a payload that parses as the kind the (changed) slot / call type indicates"""
+    sn = {v: k for k, v in SLOT_VALUES.items()}[f["st"]]
+    cn = {v: k for k, v in CALL_VALUES.items()}[f["ct"]]
+    payload, kind = pick_payload(rng, pool, sn, cn.startswith("Wakeup"))
+    f["burst"], f["kind"] = payload.hex(), kind
+
+
+def octet_values(orig: int, f):
+    """values for one reserved octet: boundaries, neighbours of the original, and the octets of the OTHER fields of
+    the same frame (a reserved octet that mirrors - or contradicts - the slot number, sequence number, colour, a type
+    value or an id octet)"""
+    slot = 1 if f["ts"] == 0x1111 else 2
+    cc = f.get("cc") or 0
+    dst, src = f.get("dst") or 0, f.get("src") or 0
+    vals = {
+        0, 1, 2, 3, 0x7F, 0x80, 0xFE, 0xFF, orig ^ 1, orig ^ 0x80, (orig + 1) & 255, (orig - 1) & 255,
+        slot, 3 - slot, f["seq"], (f["seq"] + 1) & 255, cc, (cc * 17) & 255, f["pt"] & 255, f["ct"] & 255, f["st"] & 255,
+        f["ft"] & 255, f["ts"] & 255, dst & 255, (dst >> 16) & 255, src & 255, (src >> 16) & 255,
+    }
+    vals.discard(orig)
+    return sorted(vals)
+
+
+def draw_res(rng, k):
+    """one reserved block: the default, a captured block, a captured block with one octet changed, or random octets"""
+    n = RES_LEN[k]
+    r = rng.random()
+    if r < 0.3:
+        return RES_DEFAULT[k]
+    if r < 0.5:
+        return rng.choice(res_dict()["blocks"][k])
+    if r < 0.65:
+        b = bytearray.fromhex(rng.choice(res_dict()["blocks"][k]))
+        p = rng.randrange(n)
+        b[p] = rng.choice([0, 1, 2, 3, 0x7F, 0x80, 0xFF, b[p] ^ 1, (b[p] + 1) & 255, (b[p] - 1) & 255])
+        return b.hex()
+    return bytes(rng.randrange(256) for _ in range(n)).hex()
+
+
 def gen_frame(rng, pool, wf_bias=0.8):
     """fields of one frame; ~20 % leave the property's range in one respect"""
     f = {}
-    f["first"] = "5a5a" if rng.random() < 0.5 else bytes(rng.randrange(256) for _ in range(2)).hex()
     f["second"] = "5a5a"
     f["seq"] = rng.choice([0, 1, 127, 128, 254, 255]) if rng.random() < 0.3 else rng.randrange(256)
-    rb = lambda n, d: d if rng.random() < 0.4 else bytes(rng.randrange(256) for _ in range(n)).hex()  # noqa: E731
-    f["r3"] = rb(3, "000000")
-    f["r7"] = rb(7, "00050101000000")
-    f["r2a"] = rb(2, "4000")
-    f["r2b"] = rb(2, "e208")
-    f["r1"] = rb(1, "00")
+    if rng.random() < 0.15:  # the seven reserved fields of one captured frame, together
+        for k, v in rng.choice(res_dict()["tuples"]).items():
+            set_res(f, k, v)
+    else:
+        for k, _ in RES_FIELDS:
+            set_res(f, k, draw_res(rng, k))
     slot_name = rng.choice(SLOT)
     f["st"] = SLOT_VALUES[slot_name]
     f["pt"] = rng.choice(list(PACKET_VALUES.values()))
@@ -418,7 +520,6 @@ def gen_frame(rng, pool, wf_bias=0.8):
     payload, kind = pick_payload(rng, pool, slot_name, ct_name.startswith("Wakeup"))
     f["burst"] = payload.hex()
     f["kind"] = kind
-    f["pad"] = 0 if rng.random() < 0.5 else rng.randrange(256)
     f["parses"] = True
     if rng.random() >= wf_bias:
         r = rng.random()
